@@ -77,7 +77,9 @@ def explain_output(o, hits, lengths):
     inside = [h for h in same if o.s <= h.s and h.e <= o.e and h.sc <= o.sc and h.ev >= o.ev]
     spans = (any(h.s == o.s for h in inside) and any(h.e == o.e for h in inside))
     best = (any(h.sc == o.sc for h in inside) and any(h.ev == o.ev for h in inside))
-    short = (o.e - o.s) < MERGE_SPAN * lengths[o.p]
+    # the 1.5 x model rule limits how far a merge may *extend*; a fragment that already covers the
+    # whole output (the others lie inside it) is not extended by absorbing them
+    short = (o.e - o.s) < MERGE_SPAN * lengths[o.p] or any(h.s == o.s and h.e == o.e for h in inside)
     if spans and best and short and len(inside) >= 2:
         return "merge", inside
     # failure shapes
@@ -110,6 +112,22 @@ def _merge_units(h, hits, lengths):
             if a == h and b == h:
                 continue
             units.append(Hit(h.p, a.s, b.e, max(a.sc, b.sc, h.sc), min(a.ev, b.ev, h.ev)))
+    return units
+
+
+def all_units(hits, lengths):
+    """ every permissible merge of same-profile fragments: hull [a.s, b.e) shorter than 1.5 x model,
+        carrying the best score / e-value of the fragments inside the hull """
+    units = []
+    for a in hits:
+        limit = MERGE_SPAN * lengths[a.p]
+        for b in hits:
+            if b.p != a.p or b.e <= a.s or b.e - a.s >= limit or a.s > b.s:
+                continue
+            members = [m for m in hits if m.p == a.p and a.s <= m.s and m.e <= b.e]
+            if len(members) < 2:
+                continue
+            units.append(Hit(a.p, a.s, b.e, max(m.sc for m in members), min(m.ev for m in members)))
     return units
 
 
@@ -179,11 +197,13 @@ def check_refined(hits, out, lengths, neighbour_mode, count=None):
         same = [x for x in hits if x.p == h.p and x != h]
         limit = MERGE_SPAN * lengths[h.p]
         better_conflicting = [x for x in hits if x != h and better(x, h) and conflict(x, h, lengths)]
+        absent_rival = _lost_to_absent_rival(h, hits, out, lengths, neighbour_mode)
         devs.append(("drop-justified", dict(
             base, dropped=list(h), output=[list(o) for o in out],
             complete=proportion(h, lengths) > THRESHOLD,
             # structural facts used by the known-finding classifiers
-            better_conflicting_input_dropped=any(not represented(x, out) for x in better_conflicting),
+            lost_to_absent_rival=absent_rival,
+            tail_cut_by_same_profile_fragment=any(h.s <= x.s < h.e and x.e < h.e for x in same),
             better_conflicting_input=bool(better_conflicting),
             same_profile_restart=any(a.s <= h.s and g.s >= h.s and g != h and g.e - a.s >= limit
                                      for a in same + [h] for g in same),
@@ -194,11 +214,26 @@ def check_refined(hits, out, lengths, neighbour_mode, count=None):
     return devs
 
 
+def _lost_to_absent_rival(h, hits, out, lengths, neighbour_mode) -> bool:
+    """ structural fact: h (or, where merging precedes the competition, a permissible merge containing h)
+        is in conflict with a better-ranked hit / merge that is itself not represented in the output """
+    if neighbour_mode:
+        return any(x != h and better(x, h) and conflict(x, h, lengths) and not represented(x, out) for x in hits)
+    rivals = list(hits) + all_units(hits, lengths)
+    selves = [h] + _merge_units(h, hits, lengths)
+    return any(x.p != me.p and better(x, me) and conflict(x, me, lengths) and not represented(x, out)
+               for me in selves for x in rivals)
+
+
 def _drop_reason(h, hits, out, lengths, neighbour_mode, complete_out):
     # (a) a better-ranked kept hit in conflict with h itself
     for k in out:
         if k != h and better(k, h) and conflict(k, h, lengths):
             return "better-kept-conflict"
+    # (a2) ... or represented inside an output merge (in neighbour mode the competition precedes the merge)
+    for x in hits:
+        if x != h and x not in out and better(x, h) and conflict(x, h, lengths) and represented(x, out):
+            return "better-kept-conflict-constituent"
     units = _merge_units(h, hits, lengths)
     # (a') h competed as part of a merge of same-profile fragments (merge precedes competition
     #      in normal mode only)
@@ -215,7 +250,8 @@ def _drop_reason(h, hits, out, lengths, neighbour_mode, complete_out):
         if complete_out is not None and complete_out >= prop:
             return "incomplete-with-alternative"
     # (c) documented: fragments at most a third of the model are dropped even without alternative
-    if proportion(h, lengths) <= FALLBACK and "regulator" not in h.p:
+    #     (a 'regulator' profile is documented to be kept then - one of them)
+    if proportion(h, lengths) <= FALLBACK and ("regulator" not in h.p or any("regulator" in o.p for o in out)):
         return "unspecified-below-fallback"
     return None
 
@@ -248,7 +284,13 @@ def check_hmmer(hits, out, cutoffs, limit, count=None):
     if any(o not in pool for o in out):
         devs.append(("output-is-input", dict(base, foreign=[list(o) for o in out if o not in pool])))
     if len(set(out)) != len(out):
-        devs.append(("output-no-duplicates", dict(base)))
+        first = min(h.s for h in pool)
+        twice = [o for o in set(out) if out.count(o) > 1]
+        devs.append(("output-no-duplicates", dict(
+            base, duplicated=[list(o) for o in sorted(twice)],
+            only_earliest_hit_shorter_than_limit=all(o.s == first and o.e - o.s < limit and out.count(o) == 2
+                                                     for o in twice))))
+        out = sorted(set(out), key=out.index)      # judge the remaining clauses on the distinct hits
     for i in range(len(out)):
         for j in range(i + 1, len(out)):
             sh = shared(out[i], out[j])
@@ -339,8 +381,6 @@ def check_filter_results(by_cds_in, by_cds_out, results_in, results_out, groups,
             if not any(h in after for h in best):
                 devs.append(("group-best-survives", dict(facts, group=[list(h) for h in comp],
                                                          tie_for_best=len(best) > 1)))
-            if len(comp) == 1 and comp[0] not in after:
-                devs.append(("unchallenged-hit-survives", dict(facts, hit=list(comp[0]))))
         for i in range(len(after)):
             for j in range(i + 1, len(after)):
                 if shared(after[i], after[j]) > COMPETE_OVERLAP:
@@ -348,11 +388,15 @@ def check_filter_results(by_cds_in, by_cds_out, results_in, results_out, groups,
         for h in before:
             if h in after:
                 continue
-            rivals = [x for x in before if x != h and shared(x, h) > COMPETE_OVERLAP and x.sc >= h.sc]
+            # the property demands survival of the best of each overlap group, it does not protect the others
+            rivals = [x for x in before if x != h and shared(x, h) > COMPETE_OVERLAP]
             if not rivals:
-                devs.append(("drop-justified", dict(facts, dropped=list(h))))
-            elif count is not None and not any(x in after for x in rivals):
-                count("unspecified:dropped-by-rival-that-was-dropped")
+                devs.append(("unchallenged-hit-survives", dict(facts, hit=list(h))))
+            elif count is not None:
+                if not any(x.sc >= h.sc for x in rivals):
+                    count("unspecified:dropped-though-better-than-every-hit-it-overlaps")
+                elif not any(x in after for x in rivals if x.sc >= h.sc):
+                    count("unspecified:dropped-by-rival-that-was-dropped")
     return devs
 
 
